@@ -64,8 +64,10 @@ let show_diff = function
   | Some (r, a) -> "R[" ^ show_side r ^ "]A[" ^ show_side a ^ "]"
 let handle = function
   | ["df"; pub; ops] ->
-    let ds = c10_diff (build_pub (split_on ',' pub)) (List.map parse_dop (split_on ',' ops)) in
+    let p = build_pub (split_on ',' pub) and o = List.map parse_dop (split_on ',' ops) in
+    let ds = c10_diff p o in
     String.concat " " (List.map show_diff ds)
+    ^ (if c10_diff_good p o then " good=1 applies=" ^ (if c10_diff_applies p o then "1" else "0") else " good=0")
   | "x" :: ms -> let (us, s) = c10_run (parse_msgs ms) in show_upds us ^ " " ^ show_status s
   | ["ap"; z0; us] ->
     (match c10_apply (List.map parse_rr (split_on '.' z0)) (List.map parse_upd (split_on ',' us)) with
@@ -78,6 +80,22 @@ let handle = function
      | Ok zs -> "Ok " ^ String.concat " " (List.map show_zone zs)
      | Err e -> "Err" ^ string_of_int (int_of_n e)
      | Panic _ -> "Panic" | OutOfFuel -> "OutOfFuel")
+  | ["sq"; kind; vs] ->
+    (* versions  soa:k.k.k;soa:k.k  -> the record sequence, runs of non-SOA records sorted *)
+    let parse_v w = match String.split_on_char ':' w with
+      | [s; ks] -> (num s, List.map num (split_on '.' ks)) | _ -> failwith "version" in
+    let vl = List.map parse_v (String.split_on_char ';' vs) in
+    let seq = if kind = "a" then (match c10_sender_axfr (List.hd vl) with Some l -> l | None -> []) else c10_sender_ixfr vl in
+    let canon l =
+      let rec go out cur = function
+        | [] -> List.rev (List.rev_append (List.sort compare cur) out)
+        | Soa s :: rest -> go (("S" ^ string_of_int (int_of_n s)) :: List.rev_append (List.sort compare cur) out) [] rest
+        | Other k :: rest -> go out (("O" ^ Printf.sprintf "%06d" (int_of_n k)) :: cur) rest in
+      go [] [] l in
+    String.concat "." (canon seq)
+  | "cl" :: q :: ms ->
+    let (l, e) = c10_client (num q) (parse_msgs ms) in
+    String.concat "" (List.map (fun b -> if b then "m" else "w") l) ^ (if e then "E" else "C")
   | ["ck"; first; h] -> if c10_check (first = "1") (parse_hdr h) then "reject" else "pass"
   | _ -> failwith "bad case line"
 let () = main handle
